@@ -36,7 +36,13 @@ type selCase struct {
 	// and the version is requested with -sdk, which overrides the name
 	ZipOverride bool `json:"zip_named_otherwise_with_sdk_flag,omitempty"`
 	Reenabled   int  `json:"reenabled_by_closure"`
+	// HRST: run with -hrst, which keeps every heart_rate_source_type row
+	// whatever its EXAMPLE cell says (those rows are then disabled in the
+	// product profile on purpose, although enabled rows refer to them)
+	HRST bool `json:"hrst_flag,omitempty"`
 }
+
+const hrstName = "heart_rate_source_type"
 
 type book struct {
 	ver   string
@@ -313,8 +319,11 @@ func buildFitgen() (string, error) {
 	return fitgenBin, fitgenErr
 }
 
-func runFitgen(bin, input, ver, out string, viaZip, override bool) (string, error) {
+func runFitgen(bin, input, ver, out string, viaZip, override, hrst bool) (string, error) {
 	args := []string{}
+	if hrst {
+		args = append(args, "-hrst")
+	}
 	if !viaZip || override {
 		args = append(args, "-sdk", ver)
 	}
@@ -383,7 +392,7 @@ func checkSelection(c selCase, labels map[string]int) (string, bool) {
 			}
 			labels["second run over existing longer files"]++
 		}
-		log, err := runFitgen(bin, input, c.Version, o, c.ViaZip, c.ZipOverride)
+		log, err := runFitgen(bin, input, c.Version, o, c.ViaZip, c.ZipOverride, c.HRST)
 		if err != nil {
 			tail := log
 			if len(tail) > 1500 {
@@ -417,7 +426,7 @@ func checkSelection(c selCase, labels map[string]int) (string, bool) {
 		sname := wb.CamelCase(msg) + "Msg"
 		var want []wb.FieldSpec
 		for _, r := range b.byMsg[msg] {
-			if !r.Enabled || disabled[r.Line] {
+			if (!r.Enabled || disabled[r.Line]) && !(c.HRST && r.Name == hrstName) {
 				continue
 			}
 			fs, err := wb.Resolve(r, b.types)
@@ -546,6 +555,16 @@ func drawSelection(d gen.D, b *book) selCase {
 		}
 	}
 	c.Reenabled = b.closeSelection(disabled)
+	if d.Int(0, 3, "hrst") == 0 {
+		// with -hrst the heart_rate_source_type rows may be disabled although
+		// enabled rows refer to them: the flag keeps them
+		for _, r := range b.rows {
+			if !r.Sub && r.Name == hrstName && r.Enabled {
+				c.HRST = true
+				disabled[r.Line] = true
+			}
+		}
+	}
 	for l := range disabled {
 		c.Disabled = append(c.Disabled, l)
 	}
@@ -609,6 +628,17 @@ func TestC19(t *testing.T) {
 				}
 				b.closeDown(disabled)
 				c := selCase{Version: v, ViaZip: i >= 1, ZipOverride: i == 2}
+				if i == 0 {
+					// the selection that keeps the rows referring to
+					// heart_rate_source_type but not that row itself is only
+					// valid with -hrst
+					for _, r := range b.rows {
+						if !r.Sub && r.Name == hrstName && r.Enabled && !disabled[r.Line] {
+							c.HRST = true
+							disabled[r.Line] = true
+						}
+					}
+				}
 				for l := range disabled {
 					c.Disabled = append(c.Disabled, l)
 				}
@@ -628,6 +658,9 @@ func TestC19(t *testing.T) {
 					rec.Fail("cover", "", fmt.Sprintf("SDK %s, %d rows disabled: %s", c.Version, len(c.Disabled), msg), c)
 				}
 				rec.Eval("cover", 1)
+				if c.HRST {
+					rec.Class("run with -hrst and the heart_rate_source_type row disabled", 1)
+				}
 				rec.NonTrivial(hx.FP(fmt.Sprint(c.Version, c.Disabled)))
 				rec.Class("table-entries-checked", int64(labels["table-entries-checked"]))
 			}(c)
@@ -662,6 +695,9 @@ func TestC19(t *testing.T) {
 				rec.Class("table-entries-checked", int64(lbls[i]["table-entries-checked"]))
 				rec.Class("type-errors-in-hand-written-files(not judged)", int64(lbls[i]["type-errors-in-hand-written-files(not judged)"]))
 				rec.Class("sdk "+c.Version, 1)
+				if c.HRST {
+					rec.Class("run with -hrst and the heart_rate_source_type row disabled", 1)
+				}
 				if c.ViaZip {
 					rec.Class("input: SDK zip", 1)
 				} else {
